@@ -598,23 +598,28 @@ func (vc *VC) callInvoke(fr *Frame, n *Node, call *ssa.CallCommon, res ssa.Value
 			}
 		}
 	}
+	akey := "." + call.Method.Name() // anonymous interface: anchor is .Method
+	if nt, ok := types.Unalias(call.Value.Type()).(*types.Named); ok {
+		akey = nt.Obj().Name() + "." + call.Method.Name()
+	}
+	fr.callOrd["@"+akey]++
+	aord := fr.callOrd["@"+akey]
+	fr.ghostArgs = map[string]Val{"self": {T: recv, Ty: call.Value.Type()}}
 	if fc, ok := vc.p.ifaceContracts[key]; ok {
-		akey := key
-		if nt, ok := types.Unalias(call.Value.Type()).(*types.Named); ok {
-			akey = nt.Obj().Name() + "." + call.Method.Name()
-		}
-		fr.callOrd["@"+akey]++
-		ord := fr.callOrd["@"+akey]
-		fr.ghostArgs = map[string]Val{"self": {T: recv, Ty: call.Value.Type()}}
-		vc.ghostAt(fr, n, "before", akey, ord)
+		vc.ghostAt(fr, n, "before", akey, aord)
 		vc.callIfaceContract(fr, n, fc, call, res, recv, args, pos, key)
-		vc.ghostAt(fr, n, "after", akey, ord, res)
+		vc.ghostAt(fr, n, "after", akey, aord, res)
 		return n
 	}
-	if vc.libInvoke(fr, n, key, call, res, recv, args, pos) {
-		return n
+	if _, ok := vc.p.libs[key]; ok || key == "error.Error" {
+		vc.ghostAt(fr, n, "before", akey, aord)
+		if vc.libInvoke(fr, n, key, call, res, recv, args, pos) {
+			vc.ghostAt(fr, n, "after", akey, aord, res)
+			return n
+		}
 	}
 	// CHA frame
+	vc.ghostAt(fr, n, "before", akey, aord)
 	targets := vc.p.chaTargets(call)
 	maps := map[string]bool{}
 	top := false
